@@ -131,6 +131,7 @@ class World:
         self.DatabaseService, self.FTPClient = DatabaseService, FTPClient
         self.rec = rec
         self.t = 0
+        self.looped = False
         d = case["durs"]
         n = len(case["clients"])
         net = Network()
@@ -361,14 +362,22 @@ class World:
                 raised = True
         elif k == "co":
             co = self.srv.software_manager.software.get("database-client")
-            if co is None:
-                rej = True
-            elif op[1] == 0:
-                res = co.get_new_connection() is not None
-            elif op[1] == 1:
-                res = bool(co.query("SELECT"))
-            else:
-                res, rej = self.req(self.srv.apply_request(["application", "database-client", "execute"]))
+            try:
+                if co is None:
+                    rej = True
+                elif op[1] == 0:
+                    res = co.get_new_connection() is not None
+                elif op[1] == 1:
+                    res = bool(co.query("SELECT"))
+                else:
+                    res, rej = self.req(self.srv.apply_request(["application", "database-client", "execute"]))
+            except (RecursionError, Exception) as e:  # noqa: BLE001
+                # the service answers its own answers for ever (it owns port 5432 on the host the client addresses): the call
+                # does not return. Explicit outcome; the state afterwards is not compared and the trace ends here.
+                if isinstance(e, RecursionError) or "recursion" in str(e).lower():
+                    self.looped = True
+                    return "res=- h=- st=[] rej=R | LOOP"
+                raise
         elif k == "hq":
             if op[1] >= len(rec.handles):
                 rej = True
@@ -468,6 +477,13 @@ class World:
                 if sm.software.get("ftp-client") is old:
                     rej = True
                 else:
+                    res = True
+            elif op[1] == "corun":
+                co = sm.software.get("database-client")
+                if co is None:
+                    rej = True
+                else:
+                    co.run()
                     res = True
             elif op[1] == "coin":
                 if "database-client" in sm.software:
@@ -583,7 +599,18 @@ def run_impl(case: dict) -> List[str]:
             except Exception as e:  # noqa: BLE001 - any exception out of the implementation is an observable
                 out.append(f"raised {type(e).__name__}: {str(e)[:120]}")
                 break
+            if w.looped:
+                break
     return out
+
+
+def align(impl: List[str], model: List[str]) -> List[str]:
+    """The one outcome whose state is not compared: a call that does not return (`| LOOP`, see `World.do` / `step (.co k)`).
+    The model's line for that op must be the explicit outcome `rej=R`; the model's lines after it are dropped."""
+    for j, a in enumerate(impl):
+        if a.endswith("| LOOP") and j < len(model) and model[j].split(" | ")[0] == a.split(" | ")[0]:
+            return model[:j] + [a]
+    return model
 
 
 # ------------------------------------------------------------------------------------------ generation
@@ -739,6 +766,8 @@ def next_op(rng: Rng, w: "World", case: dict, W: dict, total: int) -> list:
     if k == "co":
         if "database-client" not in w.srv.software_manager.software and not wild:
             return ["adm", "coin"]
+        if rng.chance(1, 4):
+            return ["adm", "corun"]
         return ["co", rng.below(3)]
     if k == "dmp":
         with_dm = [j for j, c in enumerate(case["clients"]) if c.get("dm")]
@@ -755,8 +784,10 @@ def next_op(rng: Rng, w: "World", case: dict, W: dict, total: int) -> list:
             return ["adm", "bkcfg", rng.chance(1, 2)]
         if x < 15:
             return ["adm", "coin"]
-        if x < 18:
+        if x < 17:
             return ["adm", "coun"]
+        if x < 18:
+            return ["adm", "corun"]
         return ["adm", rng.choice(["ftpcun", "svcun"])]
     if k == "svc":
         return ["svc", rng.choice(SVC_REQS + ["fix", "start", "stop", "compromise"])]
@@ -802,6 +833,8 @@ def gen_and_run(rng: Rng, max_ops: int = 40):
             except Exception as e:  # noqa: BLE001
                 out.append(f"raised {type(e).__name__}: {str(e)[:120]}")
                 break
+            if w.looped:
+                break
     return case, out
 
 
@@ -825,6 +858,8 @@ class _Script:
             self.out.append(w.do(op))
         except Exception as e:  # noqa: BLE001
             self.out.append(f"raised {type(e).__name__}: {str(e)[:120]}")
+            self.dead = True
+        if w.looped:
             self.dead = True
 
 
